@@ -31,6 +31,7 @@ EXPLANATION = (
     "without size, `*`) and rejects everything else; its operands are the unmodified converted annotation of the declaration (read from the specification's or the implementation's inputs) "
     "and the kind of the paired argument, its `false` outcome cannot reach the executor, no annotated input bypasses it, and the executor is reachable only for equal numbers of "
     "declarations and arguments - the table of the source is decided, the run-time behaviour of a machine call is not."
+    ' (R10) transition variants that share an arm in the executor (the match over Transition with the most arms; today Next | Async) share an arm in every other match over Transition of the interpreter, in particular in the validator that rejects a transition to an undeclared state.'
 )
 
 MOD = "mech_interpreter::state_machines::"
@@ -567,6 +568,8 @@ def run(F, rep, tier):
     length_admissibility(F, rep, "C17-R8")
     from rules.c17_gate import argument_gate
     argument_gate(F, rep)
+    from rules import c17_variants
+    c17_variants.run(F, rep)   # R10: transition variants the executor treats alike are validated alike
 
 
 def unbounded_in(cg, item):
